@@ -31,9 +31,14 @@ static struct { void *ptr; int owner; } blk[MAXBLK];
 static size_t nblk;
 static int in_lib = -1;  /* owner of the running library call, -1 = harness code */
 
+/* the next allocation made by library code fails (op setfail) */
+static int fail_armed;
+static int fail_hit;
 void *__wrap_malloc(size_t n)
 {
-	void *p = __real_malloc(n);
+	void *p;
+	if (in_lib >= 0 && fail_armed) { fail_armed = 0; fail_hit = 1; return 0; }
+	p = __real_malloc(n);
 	if (in_lib >= 0 && p && nblk < MAXBLK) { blk[nblk].ptr = p; blk[nblk].owner = in_lib; ++nblk; }
 	return p;
 }
